@@ -34,7 +34,7 @@ OPS = ['sum_product', 'sum_product', 'sum_products', 'viterbi', 'factorize_fgg',
 
 def plan(prop, tier):
     if tier == 'quick':
-        return {'runs': 1200, 'cap': 90.0, 'det_runs': 15}
+        return {'runs': 1200, 'cap': 90.0, 'det_runs': 15, 'legs': [{'hashseed': h} for h in (0, 1, 2, 3)]}
     return {'cap': 180.0, 'budget_s': 900, 'legs': [{'hashseed': h} for h in (0, 1, 2, 3)]}
 
 
